@@ -25,7 +25,7 @@ class Endpoint(threading.Thread):
     """One TLS endpoint; all library calls for it happen in this thread."""
 
     def __init__(self, variant, proto, is_client, sock, cafile=None, chainfile=None, keyfile=None, enckeyfile=None,
-                 depth=None, entropy_seed=1, entropy_script=b"", password=pki.PASSWORD, fail_at=None):
+                 depth=None, entropy_seed=1, entropy_script=b"", password=pki.PASSWORD, fail_at=None, doctor=None):
         threading.Thread.__init__(self, daemon=True)
         self.l = lib(variant)
         self.proto, self.is_client, self.sock = proto, is_client, sock
@@ -33,6 +33,7 @@ class Endpoint(threading.Thread):
         self.depth = const("TLS_DEFAULT_VERIFY_DEPTH") if depth is None else depth
         self.seed, self.script, self.password = entropy_seed, entropy_script, password
         self.fail_at = fail_at
+        self.doctor = doctor
         self.cmds = queue.Queue()
         self.results = queue.Queue()
         self.ctx = None
@@ -90,6 +91,11 @@ class Endpoint(threading.Thread):
         off, size = offsetof(struct, name)
         return self.conn.raw(size, off)
 
+    def set_field(self, name, data, struct="TLS_CONNECT"):
+        off, size = offsetof(struct, name)
+        assert len(data) <= size
+        self.conn.write(data, off)
+
     def run(self):
         sh = shim()
         sh.stream(self.seed, self.script)
@@ -97,6 +103,8 @@ class Endpoint(threading.Thread):
             sh.fail_at(self.fail_at)
         l = self.l
         self.setup_ret = self._setup()
+        if self.setup_ret[0] == "ok" and self.doctor:
+            self.doctor(self)
         self.results.put(("setup",) + self.setup_ret)
         t13 = self.proto == "tls13"
         while True:
@@ -304,7 +312,7 @@ class Session:
 
     def __init__(self, variant, proto, pki_files, client_files=None, mutual=False, hook=None, frag=None, quiet_ms=None,
                  seed=1, client_cafile="default", server_cafile=None, depth=None, server_files=None,
-                 client_script=b"", server_script=b"", fail=None):
+                 client_script=b"", server_script=b"", fail=None, client_doctor=None, server_doctor=None):
         self.proto = proto
         c_outer, c_inner = socket.socketpair()
         s_inner, s_outer = socket.socketpair()
@@ -317,12 +325,12 @@ class Session:
                                cafile=pki_files["root"] if client_cafile == "default" else client_cafile,
                                chainfile=cf["chain"] if (mutual and cf) else None, keyfile=cf["leafkey"] if (mutual and cf) else None,
                                depth=depth, entropy_seed=cseed, entropy_script=client_script,
-                               fail_at=fail[1] if fail and fail[0] == "client" else None)
+                               fail_at=fail[1] if fail and fail[0] == "client" else None, doctor=client_doctor)
         self.server = Endpoint(variant, proto, False, s_outer,
                                cafile=(server_cafile if server_cafile else (cf["root"] if (mutual and cf) else None)),
                                chainfile=sf["chain"], keyfile=sf["leafkey"], enckeyfile=sf.get("enckey"),
                                depth=depth, entropy_seed=sseed, entropy_script=server_script,
-                               fail_at=fail[1] if fail and fail[0] == "server" else None)
+                               fail_at=fail[1] if fail and fail[0] == "server" else None, doctor=server_doctor)
         self.proxy = Proxy(c_inner, s_inner, hook=hook, frag=frag, quiet_ms=quiet_ms)
 
     def start(self):
